@@ -9,8 +9,15 @@ checks, claimed = [], set()
 for f in sorted(os.listdir(os.path.join(ROOT, "props"))):
     if re.match(r"C\d+\.py$", f):
         pid = f[:-3]
-        c = importlib.import_module(pid).CONFIG
+        c = dict(importlib.import_module(pid).CONFIG)
         claimed.add(pid)
+        # parts of the property (props/CNNx.py with part_of = CNN) extend its texts
+        for g in sorted(os.listdir(os.path.join(ROOT, "props"))):
+            if re.match(pid + r"[A-Z]+\.py$", g):
+                pc = importlib.import_module(g[:-3]).CONFIG
+                if pc.get("part_of") == pid:
+                    c["level_text"] = c["level_text"] + " PART " + g[:-3] + ": " + pc.get("level_text", "")
+                    c["level_note"] = c["level_note"] + " PART " + g[:-3] + ": " + pc.get("level_note", "")
         checks.append({
             "property_id": pid,
             "quick_cmd": "./check %s --tier quick" % pid,
